@@ -178,6 +178,7 @@ _c15.append(H("c15::unified::c15_agree_v4_64", "quick", "unified analyzer (its o
 _c15.append(H("c15::unified::c15_agree_v6_84", "thorough", "same, every frame of 40..=84 bytes, IPv6 view", "same lemma", timeout_s=1500, mem_gb=12))
 PROPERTIES["C15"] = {
     "harnesses": _c15,
+    "max_jobs": 4,
     "explanation": "Decoder-agreement lemma by bounded model checking: over every frame up to the bound, the endpoints the analyzer's own "
                    "decoder yields (real parse_packet + pnet Ipv4/Ipv6/Tcp views, as process.rs uses them) are the endpoints the real "
                    "raw_filter::apply decides on, observed through exact allow/deny lists built with the real filter types. Since the filter is "
@@ -209,12 +210,13 @@ for c in ["tls", "http"]:
         H(f"c18::{c}::c18_raw_v4_n3", "thorough", f"same, 3 workers", "same worker, valid index", timeout_s=2700),
         H(f"c18::{c}::c18_eth_v4_n4", "quick", f"two Ethernet+IPv4 frames of 54 bytes, same {ident}, 4 workers", "same worker, valid index", timeout_s=900),
         H(f"c18::{c}::c18_eth_v4_n7", "thorough", f"same, 7 workers", "same worker, valid index", timeout_s=2700),
-        H(f"c18::{c}::c18_raw_v6_n4", "thorough", f"two raw IPv6 frames of 60 bytes, same {ident}, 4 workers", "same worker, valid index", timeout_s=2700, mem_gb=24),
+        H(f"c18::{c}::c18_raw_v6_n4", "thorough", f"two raw IPv6 frames of 60 bytes, same {ident}, 4 workers", "same worker, valid index", timeout_s=2700, mem_gb=24, optional=True),
         H(f"c18::{c}::c18_null_v4_n4", "thorough", f"two NULL/loopback-framed IPv4 frames of 64 bytes, same {ident}, 4 workers", "same worker, valid index", timeout_s=2700, mem_gb=24),
-        H(f"c18::{c}::c18_eth_v6_n16", "thorough", f"two Ethernet+IPv6 frames of 74 bytes, same {ident}, 16 workers", "same worker, valid index", timeout_s=2700, mem_gb=24),
+        H(f"c18::{c}::c18_eth_v6_n16", "thorough", f"two Ethernet+IPv6 frames of 74 bytes, same {ident}, 16 workers", "same worker, valid index", timeout_s=2700, mem_gb=24, optional=True),
     ]
 PROPERTIES["C18"] = {
     "harnesses": _c18,
+    "max_jobs": 6,
     "explanation": "Two-run non-interference by bounded model checking: two frames of a framing skeleton, every other byte symbolic in both, "
                    "that the analyzer's own decoder (real parse_packet + pnet views) maps to the same connection identity must be given the same "
                    "worker by the real hash functions (SipHash encoded by CBMC); plus index validity over all frames and worker counts.",
